@@ -2,6 +2,7 @@
 Line-protocol driver for the C14 provenance model.
   crs <seed> <0|1>          -> source
   mech <Mech> <seed>        -> source of the `_rng` the mechanism holds
+  copy <shallow|deep> <Mech> <seed>  -> source of the copy's `_rng` (error: no copy is obtained)
   plan <entry> <seed>       -> `site:kind:src` tokens (mechanism sites print as the class name)
 seed ∈ none globalSingleton int randomState systemRandom other
 -/
@@ -56,6 +57,11 @@ def step (_ : Unit) (ws : List String) : Unit × String :=
     match mechOf m, seedOf s with
     | some m, some s => ((), srcStr (mechRng m s))
     | _, _ => ((), "bad-op")
+  | ["copy", w, m, s] =>
+    let way : Option CopyWay := match w with | "shallow" => some .shallow | "deep" => some .deep | _ => none
+    match way, mechOf m, seedOf s with
+    | some w, some m, some s => ((), srcStr (copySrc w (mechRng m s)))
+    | _, _, _ => ((), "bad-op")
   | ["plan", e, s] =>
     match entryOf e, seedOf s with
     | some e, some s =>
